@@ -256,6 +256,21 @@ def conv_name(x):
     return ["fun", getattr(x, "__qualname__", repr(x))]
 
 
+def versions(v, depth=0):
+    """in-place modification counters of the tensors a cached value is made of (a cached value that is modified in
+    place after it was validated must be validated again)"""
+    if torch.is_tensor(v):
+        return (v._version,)
+    if isinstance(v, (tuple, list)) and depth < 3:
+        return tuple(x for e in v for x in versions(e, depth + 1))
+    if isinstance(v, LO().LinearOperator) and depth < 3:
+        try:
+            return tuple(x for e in v.representation() for x in versions(e, depth + 1))
+        except Exception:
+            return ()
+    return ()
+
+
 def ignored_key(k):
     nm = k[0] if isinstance(k, tuple) and len(k) == 3 and isinstance(k[2], bytes) else k
     return isinstance(nm, str) and nm in IGNORED_KEYS
@@ -601,7 +616,8 @@ class World:
                 continue
             d = getattr(op, "_memoize_cache", None) or {}
             for pos, (k, v) in enumerate((k_, v_) for k_, v_ in d.items() if not ignored_key(k_)):
-                memo_key = (i, k if not isinstance(k, tuple) else (id(k[0]) if not isinstance(k[0], str) else k[0], k[2]), id(v))
+                memo_key = (i, k if not isinstance(k, tuple) else (id(k[0]) if not isinstance(k[0], str) else k[0], k[2]), id(v),
+                            versions(v))
                 hit = self._entry_memo.get(memo_key)
                 if hit is None:
                     hit = (True, "")
